@@ -1,4 +1,12 @@
+import os
+import signal
+import subprocess
+
+import vcheck
+from vcheck import Failure, run
 from compound_common import PoolCheck, SCHEDULERS
+
+MPIEXEC = ["mpiexec", "--allow-run-as-root", "--oversubscribe", "--mca", "mpi_yield_when_idle", "1", "-n", "2"]
 
 
 def kv(obs):
@@ -30,7 +38,8 @@ class C06(PoolCheck):
     theorems = ("C06_context_wait_returns_when_done_partial", "C06_context_wait_returns_partial",
                 "C06_taskpool_wait_returns_when_terminated_partial", "C06_callback_once_after_last_task_partial",
                 "C06_dtd_callback_once_refuted", "C06_epochs_independent_partial", "C06_initial_state_is_fresh",
-                "C06_test_true_means_done_partial", "C06_active_taskpools_accounting")
+                "C06_test_true_means_done_partial", "C06_active_taskpools_accounting",
+                "C06_running_callback_keeps_context_active")
     comp = "ctxwait"
     extract_file = "theories/Extract/Extract_CtxWait.v"
     extracted = ("ctxwait",)
@@ -52,7 +61,13 @@ class C06(PoolCheck):
         "abstracted to 'the master leaves at an instant where active_taskpools = 0 and no thread is inside a task or callback'; "
         "detector calls are atomic (C10).  Tie: T-obs on real contexts (random multi-epoch histories, PTG + DTD, nested adds).")
     level_note = ("Outside the model: the taskpool-list lock, the communication engine (see notes/findings/C06-*.md for what "
-                  "was found there), DTD insertion from task bodies, parsec_taskpool_test.")
+                  "was found there), DTD insertion from task bodies, parsec_taskpool_test.  The model is single-process: it has no "
+                  "communication thread.  In a multi-rank run that thread detects terminations (last pending action = an outgoing "
+                  "transfer) and runs completion callbacks without being one of the barrier's threads, so the quiescence hypothesis of "
+                  "MWaitLeave does not cover it; the statements that do not use that hypothesis (C06_running_callback_keeps_context_"
+                  "active: active_taskpools > 0 while any callback runs; C06_test_true_means_done_partial: active_taskpools = 0 "
+                  "implies all callbacks returned and all tasks ended) are the ones that apply to it, and the two-rank scenario family "
+                  "(mpiexec -n 2, oracle only) observes the real code there.")
     technique = ("Coq proof (per-taskpool and accounting invariants over all event lists) + differential run of random multi-epoch "
                  "histories on a real context (stamped bodies, enqueue/completion callbacks, wait returns) against the extracted model")
     rule = ("1..3 epochs, 1..6 taskpools (PTG 0..8 tasks in 1..64 chains, up to 2 DTD), each PTG taskpool added by the master "
@@ -64,6 +79,126 @@ class C06(PoolCheck):
     assumptions = ("every termination-detector call is atomic (C10)",
                    "barrier abstraction: the master leaves __parsec_context_wait at an instant where active_taskpools = 0 and no "
                    "thread is inside a task, a startup task or a termination callback")
+
+    # ---- the two-rank scenario family (harness/h_ctxwait_dist.jdf), oracle only
+    def dbin(self):
+        return os.path.join(vcheck.BIN, "h_ctxwait_dist")
+
+    def build_sides(self):
+        fails = PoolCheck.build_sides(self)
+        if any(f.kind == "build" for f in fails):
+            return fails
+        gen = os.path.join(vcheck.BIN, "gen_ctxwait_dist")
+        os.makedirs(gen, exist_ok=True)
+        with open(os.path.join(vcheck.VERIF, "harness/h_ctxwait_dist.jdf")) as f, open(os.path.join(gen, "h_ctxwait_dist.jdf"), "w") as g:
+            g.write(f.read())
+        ptgpp = os.path.join(vcheck.PBUILD, "parsec/interfaces/ptg/ptg-compiler/parsec-ptgpp")
+        rc, o, e = run([ptgpp, "--noline", "-E", "-i", "h_ctxwait_dist.jdf", "-o", "h_ctxwait_dist", "-f", "h_ctxwait_dist"], cwd=gen, timeout=120)
+        if rc != 0:
+            fails.append(Failure("correspondence", "parsec-ptgpp no longer accepts harness/h_ctxwait_dist.jdf", (o + e)[-3000:]))
+            return fails
+        libdir = os.path.join(vcheck.PBUILD, "parsec")
+        cmd = (["cc"] + vcheck.harness_cflags() + ["-O0", "-g0", "-w", "-I" + gen, "h_ctxwait_dist.c", "-o", self.dbin(),
+               "-L" + libdir, "-lparsec", "-Wl,-rpath," + libdir, "-lpthread", "-lm", "-lhwloc"] + vcheck.MPI_LINK)
+        rc, o, e = run(cmd, cwd=gen, timeout=300)
+        if rc != 0:
+            fails.append(Failure("correspondence", "harness/h_ctxwait_dist.jdf no longer compiles against /repo", (o + e)[-3000:]))
+        return fails
+
+    def dist_cases(self):
+        """two ranks; tp1 = chain across the ranks, its completion callback (cb_ms later) adds tp2 = local tasks on both ranks.
+        dist <threads> <nchain> <nlocal> <late_rank> <late_ms> <cb_ms>"""
+        r = self.rng.fork()
+        th = r.pick([1, 2, 3])
+        out = ["dist %d 2 8 1 300 250" % th,          # rank 0 sends last, rank 1 joins late (the seed's scenario)
+               "dist %d 3 6 0 200 200" % th,          # 0 -> 1 -> 0: rank 1 sends last
+               "dist %d 2 5 0 0 150" % th]            # nobody late: the send still completes after the compute threads ran dry
+        for _ in range(2 if self.tier == "quick" else 12):
+            out.append("dist %d %d %d %d %d %d" % (th, r.range(2, 6), r.range(1, 16), r.below(2), r.pick([0, 50, 150, 300]),
+                                                   r.pick([100, 150, 250])))
+        return out
+
+    def run_dist(self, cases):
+        """-> one observation line per scenario:  R0 cb=.. local=../.. after=.. chain=../.. | R1 ..."""
+        if not cases:
+            return []
+        os.makedirs(vcheck.CASES, exist_ok=True)
+        cf = os.path.join(vcheck.CASES, "%s-dist-%d.txt" % (self.id, self.seed))
+        with open(cf, "w") as f:
+            f.write("\n".join(cases) + "\n")
+        so, se = cf + ".stdout", cf + ".stderr"
+        tmo = 60 + 12 * len(cases)
+        out = ""
+        for attempt in range(2):
+            with open(so, "w") as fo, open(se, "w") as fe:
+                pr = subprocess.Popen(MPIEXEC + [self.dbin(), cf], stdout=fo, stderr=fe, stdin=subprocess.DEVNULL, start_new_session=True)
+                try:
+                    rc = pr.wait(timeout=tmo)
+                except subprocess.TimeoutExpired:
+                    rc = 124
+                    try:
+                        os.killpg(pr.pid, signal.SIGKILL)
+                    except Exception:
+                        pass
+                    pr.wait()
+            out = open(so).read()
+            if rc in (0, 124) or "R0 S0" in out or "R1 S0" in out:
+                break              # a failure before the first line happened in mpiexec / MPI_Init start-up: once more
+        per = {}
+        for line in out.splitlines():
+            w = line.split()
+            if len(w) >= 3 and w[0] in ("R0", "R1") and w[1].startswith("S"):
+                try:
+                    per.setdefault(int(w[1][1:]), {})[w[0]] = " ".join(w[2:])
+                except ValueError:
+                    pass
+        res = []
+        for i in range(len(cases)):
+            d = per.get(i, {})
+            if "R0" in d and "R1" in d:
+                res.append("R0 %s | R1 %s" % (d["R0"], d["R1"]))
+            else:
+                res.append("<no observation: rc=%d %s>" % (rc, " ".join("%s %s" % kv for kv in sorted(d.items()))))
+        return res
+
+    def run_impl(self, casefile, n):
+        lines = [l.rstrip("\n") for l in open(casefile) if l.strip() and not l.startswith("#")]
+        di = [i for i, l in enumerate(lines) if l.startswith("dist ")]
+        if not di:
+            return PoolCheck.run_impl(self, casefile, n)
+        out = [None] * len(lines)
+        rest = [i for i in range(len(lines)) if i not in di]
+        if rest:
+            cf = casefile + ".ctx"
+            with open(cf, "w") as f:
+                f.write("\n".join(lines[i] for i in rest) + "\n")
+            for i, o in zip(rest, PoolCheck.run_impl(self, cf, len(rest))):
+                out[i] = o
+        for i, o in zip(di, self.run_dist([lines[i] for i in di])):
+            out[i] = o
+        return (out + ["<impl missing>"] * n)[:n]
+
+    def dist_verdict(self, case, obs):
+        if obs.startswith("<"):
+            return ("dist-no-observation", "the two-rank run gave no observation: " + obs[:120])
+        for part in obs.split("|"):
+            w = part.split()
+            try:
+                d = dict(x.split("=", 1) for x in w[1:] if "=" in x)
+                cb = int(d["cb"])
+                done, exp = [int(x) for x in d["local"].split("/")]
+                after = int(d["after"])
+                ch, che = [int(x) for x in d["chain"].split("/")]
+            except Exception:
+                return ("unparsable", "unparsable observation: " + obs[:100])
+            if done != exp or cb != 1 or after != 0:
+                return ("dist-wait-returned-early",
+                        "rank %s: parsec_context_wait returned with %d of %d tasks of the taskpool added by the completion callback "
+                        "ended, %d callback call(s) before the return, %d stamps after it (the termination of the parent taskpool was "
+                        "detected while the callback-added work was not counted)" % (w[0][1:], done, exp, cb, after))
+            if ch != che:
+                return ("tasks-lost-or-repeated", "rank %s ran %d of its %d chain tasks" % (w[0][1:], ch, che))
+        return None
 
     def configs(self):
         r = self.rng
@@ -189,7 +324,6 @@ class C06(PoolCheck):
         return out
 
     def main_flow(self):
-        import os
         fails, oracle_fail, cases, impl, model = super().main_flow()
         extra = [] if os.environ.get("VERIF_C06_SKIP_DEFECTS") else list(self.defect_cases())
         if extra and impl and len(impl) == len(cases):
@@ -207,6 +341,22 @@ class C06(PoolCheck):
             cases = cases + extra
             impl = impl + eimpl
             model = model + emodel
+        dist = [] if os.environ.get("VERIF_C06_SKIP_DIST") else list(self.dist_cases())
+        if dist and impl and not any("h_ctxwait_dist" in f.what for f in fails):
+            dimpl = self.run_dist(dist)
+            hits = 0
+            for i, (c, a) in enumerate(zip(dist, dimpl)):
+                why = self.oracle(c, a)
+                if why:
+                    hits += 1
+                    oracle_fail.append((len(cases) + i, why))
+            self.cov["two_rank_stream"] = {"scenarios": len(dist), "violations": hits, "sample": dimpl[:2],
+                                           "note": "mpiexec -n 2: a taskpool that terminates through an outgoing transfer (detected by the "
+                                                   "communication thread, outside the barrier) and whose completion callback adds a taskpool; "
+                                                   "decided by the oracle only (the single-process model has no communication thread)"}
+            cases = cases + dist
+            impl = impl + dimpl
+            model = model + ["(two-rank scenario: not compared with the model)"] * len(dist)
         return fails, oracle_fail, cases, impl, model
 
     def search_cases(self):
@@ -245,6 +395,8 @@ class C06(PoolCheck):
 
     # ---- the property, decided on the implementation's observation alone
     def verdict(self, case, obs):
+        if case.startswith("dist "):
+            return self.dist_verdict(case, obs)
         try:
             hd, pools, nested, ops = parse(case)
         except Exception:
